@@ -34,7 +34,7 @@ structure St where
   queue : List Ev
   /-- number of `schedule` calls so far + 1 -/
   nextId : Nat
-deriving Repr
+deriving DecidableEq, Repr
 
 def init : St := { tasks := [], now := 0, invalid := [], queue := [], nextId := 1 }
 
@@ -138,21 +138,32 @@ structure LoopOut where
   delay : Int
   dequeued : List Ev
   fired : List Ev
-deriving Repr
+deriving DecidableEq, Repr
 
-/-- The `do { checkEngine(scheduler); sawActivity = dispatchCalls(); } while (sawActivity);` loop.
-`fuel` only makes the recursion structural; `runOnce` supplies enough (see `Lemmas.loopBody_settled`). -/
+/-- `checkEngine(scheduler, false)`: a negative answer is EVENT_IDLE here (the scheduler never answers EVENT_ERROR);
+any other answer means the loop is not idle and may have to wait less. -/
+def LoopOut.afterCheck (o : LoopOut) (r : Int) (dq : List Ev) : LoopOut :=
+  if r < 0 then { o with dequeued := o.dequeued ++ dq }
+  else { o with result := false, delay := if r < o.delay then r else o.delay, dequeued := o.dequeued ++ dq }
+
+/-- `sawActivity = dispatchCalls(); if (sawActivity) runOnceResult = false;` -/
+def LoopOut.afterDispatch (o : LoopOut) (made : Bool) (fd : List Ev) : LoopOut :=
+  { o with fired := o.fired ++ fd, result := if made then false else o.result }
+
+/-- One pass of `do { checkEngine(scheduler); sawActivity = dispatchCalls(); } while (sawActivity);`:
+new state, `sawActivity`, new bookkeeping. -/
+def loopPass (s : St) (o : LoopOut) : St × Bool × LoopOut :=
+  let c := checkEvents s
+  let d := dispatch c.1
+  (d.1, d.2.1, (o.afterCheck c.2.1 c.2.2).afterDispatch d.2.1 d.2.2)
+
+/-- The `do … while (sawActivity)` loop. `fuel` only makes the recursion structural; `runOnce` supplies enough
+(see `loopBody_spec` in Inv.lean). -/
 def loopBody : Nat → St → LoopOut → St × LoopOut
   | 0, s, o => (s, o)
   | fuel + 1, s, o =>
-    let (s1, r, dq) := checkEvents s
-    -- checkEngine: a negative answer is EVENT_IDLE here; otherwise the loop is not idle and may wait less
-    let o1 : LoopOut :=
-      if r < 0 then { o with dequeued := o.dequeued ++ dq }
-      else { o with result := false, delay := if r < o.delay then r else o.delay, dequeued := o.dequeued ++ dq }
-    let (s2, made, fd) := dispatch s1
-    let o2 : LoopOut := { o1 with fired := o1.fired ++ fd, result := if made then false else o1.result }
-    if made then loopBody fuel s2 o2 else (s2, o2)
+    let p := loopPass s o
+    if p.2.1 then loopBody fuel p.1 p.2.2 else (p.1, p.2.2)
 
 /-- `EventLoop::runOnce()`; the primary engine (checked last, with `loop_delay`) is idle and schedules nothing. -/
 def runOnce (s : St) : St × LoopOut :=
@@ -180,7 +191,7 @@ inductive Op where
   | find (func arg : Nat)
   | invalidate (arg : Nat)
   | pending
-deriving Repr
+deriving DecidableEq, Repr
 
 /-- What an operation lets the caller observe. -/
 inductive Obs where
@@ -193,7 +204,7 @@ inductive Obs where
   | remaining (ms : Int)
   | found (b : Bool)
   | pending (l : List Ev)
-deriving Repr
+deriving DecidableEq, Repr
 
 def step (s : St) : Op → St × Obs
   | .clock d => (advance s d, .none)
